@@ -73,6 +73,7 @@ type Blk struct {
 	SpanFirst bool `json:"span_first,omitempty"`
 	// Merge (xlsx tables): one merged region {r1,c1,r2,c2} of the grid; the cells it covers besides its root are empty
 	Merge []int `json:"merge,omitempty"`
+	// Bare (HTML, EPUB list items): 4 = the blank after the second of three words stands inside a <b> element.
 	// Bare (HTML, EPUB paragraphs): 1 = the text stands directly in its container, without <p>; 2 = inside a <span>;
 	// 3 = partly inside an <a>. The container is <body>, or the <div> around everything when Case.BodyDiv is set
 	Bare int `json:"bare,omitempty"`
@@ -286,7 +287,11 @@ func htmlBody(blocks []Blk) string {
 					open = append(open, blk.Ordered)
 				}
 			}
-			b.WriteString(esc(blk.Text))
+			if f := strings.Fields(blk.Text); blk.Bare == 4 && len(f) == 3 {
+				fmt.Fprintf(&b, "%s <b>%s </b>%s", esc(f[0]), esc(f[1]), esc(f[2]))
+			} else {
+				b.WriteString(esc(blk.Text))
+			}
 		case "table":
 			b.WriteString([]string{"", `<div class="table-responsive">`, `<div class="table-responsive"><span class="cap"></span>`, "<figure>", "<section><div>"}[blk.Wrap])
 			b.WriteString("<table>\n")
@@ -788,7 +793,17 @@ func genCase(t *rapid.T) Case {
 				kindAt = [3]bool{ordered, ordered, ordered}
 				levelSeen = [3]bool{true, false, false}
 			}
-			c.Blocks = append(c.Blocks, Blk{Kind: "item", Level: d, Ordered: ordered, Text: tok() + " " + tok()})
+			ib := Blk{Kind: "item", Level: d, Ordered: ordered, Text: tok() + " " + tok()}
+			if c.Target == "html" || c.Target == "epub" {
+				switch rapid.IntRange(0, 5).Draw(t, "itemInline") {
+				case 0: // the blank between two words stands inside an inline element: "w1q <b>w2q </b>w3q"
+					ib.Text += " " + tok()
+					ib.Bare = 4
+				case 1: // a line break between the two words
+					ib.Text = strings.Replace(ib.Text, " ", "\n", 1)
+				}
+			}
+			c.Blocks = append(c.Blocks, ib)
 			depth = d
 		case "table":
 			rows := rapid.IntRange(2, 4).Draw(t, "rows")
